@@ -1,21 +1,82 @@
 GO_RUNS = [
     {"pkg": "./provider/buffered", "pkgname": "buffered", "harness": ["buffered/c17_test.go"], "test": "TestVerifC17Buffered",
-     "share": 0.8, "extra_overlay": {}},
+     "share": 0.7, "extra_overlay": {}},
     {"pkg": "./provider", "pkgname": "provider", "harness": ["provider/c17_test.go"], "test": "TestVerifC17",
-     "share": 0.2, "extra_overlay": {}},
+     "share": 0.3, "extra_overlay": {}},
 ]
 RUN_MODULE = "Run_C17"
-COQ_TARGETS = ["Corr/Run_C17.vo", "Proofs/BufferedProofs.vo", "Proofs/SweepProofs.vo"]
-N = {"quick": 100, "thorough": 3000}
+COQ_TARGETS = ["Corr/Run_C17.vo", "Proofs/BufferedProofs.vo", "Proofs/SweepProofs.vo", "Proofs/KeyspaceBase.vo",
+               "Proofs/KeyspaceProofs.vo", "Proofs/KeyspaceTrie.vo"]
+N = {"quick": 100, "thorough": 2000}
 GO_TIMEOUT = {"quick": 600, "thorough": 3000}
-RULE = "wip"
-TRUSTED = []
-ASSUMPTIONS = []
+RULE = ("three kinds of cases. (1) buffered: the real buffered wrapper (batch sizes 1..1024) over a recording wrapped provider "
+        "(4 of 5 cases) or over the real SweepingProvider with a recording message sender (1 of 5); the worker is parked inside a "
+        "call of the wrapped provider while 0-27 start / force-start / provide-once / stop operations over 1-6 keys (and, in every "
+        "tenth case, undecodable multihashes) are enqueued, 1-3 bursts per case, a quarter of them followed by Close + New on the "
+        "same datastore; the calls made are compared with the model and their effect with one-by-one execution. (2) trace: the "
+        "real SweepingProvider in a synctest bubble: 1-300 keys, swarms of 1-150 peers that grow / shrink / are replaced, "
+        "replication factor 1-5 (or 20), router reporting the exact 20 XOR-nearest, reprovide interval 30 min - 22 h, 4-13 "
+        "scripted steps (start / force start / provide once / stop / swarm change / network down-up / Close+New on the same "
+        "datastores / address change) spread over several intervals plus 2.3 more intervals of observation, offline delay 0 - "
+        "2 intervals, 1-6 workers with every split of dedicated workers that leaves each job type a worker; the recorded trace "
+        "is judged by the verified acceptor. (3) sched: reprovideTimeForPrefix, timeBetween and sequences of "
+        "schedulePrefixNoLock of the real code on random orders / intervals (1 ns - 24 h) / prefixes (0-30 bits) against their "
+        "transcription. Non-trivial = a buffered case with a cancelled stop / applied stop / several batches / restart with a "
+        "queue / provide-once after stop / bad item, a trace with at least one ADD_PROVIDER, every sched case; distinct = "
+        "distinct (kind, feature set, size class) signatures")
+TRUSTED = [
+    "go-dsqueue v0.2.0 is a FIFO that survives Close + New on the same datastore (its GetN(1) returning everything persisted "
+    "after a reopen is transcribed as observed)",
+    "testing/synctest virtual time; the fake router answers with kb.SortClosestPeers over the generated swarm (exact K nearest); "
+    "keys and peers are identified in Coq by the leading 32 bits of their sha256 Kademlia identifiers (pairwise different per case, "
+    "so XOR orders coincide with those of the 256-bit identifiers)",
+    "the trie lemmas of C18 (find_prefix_exact, prune_exact, add_one_spec) used by c17_schedule_prefix_free",
+]
+ASSUMPTIONS = [
+    "Level0 is a specification on traces; accepts_sound makes the Coq acceptor a verified monitor of recorded traces of the real "
+    "SweepingProvider: it is NOT a proof about the Go worker pool / goroutines",
+    "the closest-peers router reports the exact K = 20 nearest peers (amino bucket size): with K <= 4 the early-exit heuristic of "
+    "closestPeersToPrefix (maxConsecutiveNoFreshPeers) stops before the prefix is covered and with K = 1 a lookup delimits nothing",
+    "every job type can get a worker (maxWorkers - dedicated workers of the other type >= 1); lookups and messages take no virtual "
+    "time, so workers never queue up behind each other",
+    "a key counts as given when StartProviding is called while the network is up; during an outage the call returns nil, stores "
+    "the key and the key is advertised at its schedule slot only (ProvideOnce: dropped) although the doc comment promises an error",
+    "after a restart a key that was fresh at the restart may wait one more interval + delay counted from the restart (the rebuilt "
+    "schedule may use other prefixes, hence other offsets)",
+    "grace G = 7 min (probe back-off <= 1 min, retry ticker 5 min); reprovide_time theorems assume interval * 2^min(len,24) < 2^63",
+]
 
 
 def classify(desc, code):
+    """Stable keys of the defects confirmed on the real code (see the report of build-C17)."""
+    if not isinstance(desc, dict):
+        return None
+    kind = desc.get("kind")
+    if kind == "buffered":
+        if code == 4:
+            return "buffered-provideonce-after-stop-cancelled"
+        if code == 5:
+            return "buffered-undecodable-item-drops-batch"
+        return None
+    if kind == "trace" and code >= 21:
+        m = desc.get("misrouted", 0)
+        if m > 0 and m == desc.get("misrouted_explained_by_alloc_depth", -1):
+            return "region-peers-subtrie-allocation-depth-mismatch"
     return None
 
-TECHNIQUE = "wip"
-LEVEL_TEXT = "wip"
-LEVEL_NOTE = "wip"
+
+TECHNIQUE = ("Coq proofs on Gallina models (buffered wrapper batching; schedule arithmetic; schedule trie) with differential "
+             "correspondence against the Go code, plus a Coq-verified trace acceptor (accepts_sound: accepts -> Level0) evaluated on "
+             "traces recorded from the real SweepingProvider under testing/synctest")
+LEVEL_TEXT = ("Proved for all inputs: the buffered wrapper's batched execution leaves the same keystore as one-by-one execution for "
+              "every operation list and every batching (two further clauses refuted with witnesses that replay on the real code); "
+              "reprovide offsets lie in the cycle, are monotone and distinct per prefix length, split regions never move earlier, "
+              "timeBetween is in [1, interval], the max-delay rule never binds, the schedule trie stays prefix-free without panics. "
+              "The end-to-end property (every given key advertised with the current addresses to its r XOR-nearest peers, "
+              "re-advertised within interval + delay while online across swarm changes / outages / restarts, stopped keys silent, "
+              "ProvideOnce honoured) is specified as Level0 on traces and checked on recorded traces of the real provider by an "
+              "acceptor proved sound in Coq.")
+LEVEL_NOTE = ("PARTIAL: the Go worker pool is not modelled; the tie between the real SweepingProvider and Level0 is a verified monitor "
+              "on generated traces (bounded by the generator), not a refinement proof. The exploration loop closestPeersToPrefix and "
+              "provider/dual are only exercised through those traces. Trusted: Coq kernel, vm_compute, the harness, synctest, "
+              "go-dsqueue FIFO, the C18 trie lemmas.")
